@@ -45,11 +45,22 @@ def strategy_(draw, tier):
     steer = known.active("shared-network-leak")
     k = 2 if draw(st.integers(0, 3)) else 3
     parts = []
-    for i in range(k):
-        kind, p = draw(part(steer))
-        p = lang.prefix_program(p, "pqr"[i] + "_")
-        p = lang.shift_places(p, 60 * i, 40 * i if draw(st.booleans()) else 0)
-        parts.append((kind, p))
+    if draw(st.integers(0, 3)) == 0:
+        # two layout-heavy computations laid out side by side: same far-apart cells, a few tiles offset,
+        # so that their relay paths run next to each other
+        span = draw(st.sampled_from([20, 30, 45]))
+        for i in range(2):
+            p = draw(gen.spread_program(steer=steer, far=True, small_only=True, span=span, plain=True))
+            p = lang.prefix_program(p, "pq"[i] + "_")
+            p = lang.shift_places(p, draw(st.integers(0, 2)) if i else 0, (draw(st.integers(2, 4)) if i else 0))
+            parts.append(("spread", p))
+        k = 2
+    else:
+        for i in range(k):
+            kind, p = draw(part(steer))
+            p = lang.prefix_program(p, "pqr"[i] + "_")
+            p = lang.shift_places(p, 60 * i, 40 * i if draw(st.booleans()) else 0)
+            parts.append((kind, p))
     # order-preserving interleaving
     idx = [0] * k
     order = []
@@ -150,14 +161,14 @@ def run_case(case):
                 # entity keys of other parts appear only in the composition: restrict to this part's
                 keep = set()
                 for r in alone:
-                    if r:
+                    if r and r != "unmodelled":
                         keep |= set(r)
-                tog = [None if r is None else {k: v for k, v in r.items() if k in keep} for r in tog]
+                tog = [r if (r is None or r == "unmodelled") else {k: v for k, v in r.items() if k in keep} for r in tog]
                 f = twin.compare(alone, tog, names, f"part {i} ({case['kinds'][i]}) alone vs composed, other-valuation {alt}")
                 for x in f:
                     x["sig"] = f"{case['kinds'][i]}:{x['sig']}"
                 fails += f
-            if len({repr(r) for r in alone if r}) > 1:
+            if len({repr(r) for r in alone if r and r != "unmodelled"}) > 1:
                 varies = True
     except Unmodelled:
         return {"discard": "unmodelled"}
